@@ -113,8 +113,12 @@ def split_top(s, sep=','):
     return out
 
 
+CONST_ITEMS = {}      # last path segment -> [('lit', text) | ('body', Fn)]: the crate's own constants (associated and free)
+
+
 def parse_mir(text):
     """-> {name: [Fn runtime, Fn ctfe?]}"""
+    CONST_ITEMS.clear()
     fns, lines, i = {}, text.split('\n'), 0
     ctfe_next = False
     while i < len(lines):
@@ -122,12 +126,21 @@ def parse_mir(text):
             ctfe_next = True
             i += 1
             continue
+        mk = re.match(r'^const ((?:.+?::)?[A-Za-z_]\w*): (.+?) = const (.+);$', lines[i])
+        if mk and 'promoted[' not in mk.group(1):      # an associated / free constant with a literal value
+            CONST_ITEMS.setdefault(mk.group(1).split('::')[-1], []).append(('lit', mk.group(3)))
+            i += 1
+            continue
+        mk = re.match(r'^const ((?:.+?::)?[A-Za-z_]\w*): (.+?) = \{$', lines[i])
         m = re.match(r'^fn (.+?)\((.*)\) -> (.+) \{$', lines[i])
+        if mk and 'promoted[' not in mk.group(1) and not m:
+            m = _M('__const__::' + mk.group(1), '', mk.group(2))      # a constant with a body: a parameterless function evaluated where it is used
         if not m:
             i += 1
             continue
         name = m.group(1)
         plist = split_top(m.group(2))
+        plist = [p for p in plist if p.strip()]
         params = [p.split(': ', 1)[0] for p in plist]
         ltypes = {p.split(': ', 1)[0]: p.split(': ', 1)[1] for p in plist}
         blocks, cleanup, cur = {}, set(), None
@@ -147,6 +160,11 @@ def parse_mir(text):
             elif cur:
                 blocks[cur].append(lines[i].strip())
             i += 1
+        if name.startswith('__const__::'):
+            CONST_ITEMS.setdefault(name.split('::')[-1], []).append(('body', Fn(name, params, [], ltypes, blocks, cleanup, m.group(3), True)))
+            ctfe_next = False
+            i += 1
+            continue
         fns.setdefault(name, []).append(Fn(name, params, [ltypes[p] for p in params], ltypes, blocks, cleanup, m.group(3), ctfe_next))
         ctfe_next = False
         i += 1
@@ -545,8 +563,16 @@ class Exec:
     def stat(s, st, arr):
         return st.status.setdefault(arr, UNINIT)
 
+    def in_freed_block(s, st, arr):
+        for blk, stt in st.blocks.items():
+            if getattr(blk, 'arr', None) is arr and stt == 'freed':
+                return blk
+        return None
+
     def ev_drop_range(s, st, arr, a, b, where, what='drop'):
         J = s.J
+        if s.in_freed_block(st, arr) is not None:
+            s.require(st, z3.Or(UGE(a, b), s.S == bv(0)), 'elements dropped in a heap block that was already freed (use after free)', where)
         s.require(st, z3.And(ULE(a, b), ULE(b, arr.len)), 'range outside the array (get_unchecked precondition)', where)
         inr = z3.And(ULE(a, J), ULT(J, b), ULT(J, arr.len))
         s.require(st, z3.Implies(inr, s.stat(st, arr) == LIVE),
@@ -572,12 +598,16 @@ class Exec:
         return outs
 
     def ev_move_out(s, st, arr, i, where):
+        if s.in_freed_block(st, arr) is not None:
+            s.require(st, s.S == bv(0), 'element read from a heap block that was already freed (use after free)', where)
         s.require(st, ULT(i, arr.len), 'element read out of bounds', where)
         s.require(st, z3.Implies(i == s.J, s.stat(st, arr) == LIVE), 'element read after it was moved out or dropped', where)
         st.status[arr] = z3.If(i == s.J, HELD, st.status[arr])
         st.events.append('read %s[%s]' % (arr.name, z3.simplify(i)))
 
     def ev_write(s, st, arr, i, val, where):
+        if s.in_freed_block(st, arr) is not None:
+            s.require(st, s.S == bv(0), 'element written into a heap block that was already freed (use after free)', where)
         s.require(st, ULT(i, arr.len), 'element written out of bounds', where)
         s.require(st, z3.Implies(i == s.J, s.stat(st, arr) != LIVE), 'live element overwritten without drop', where)
         st.status[arr] = z3.If(i == s.J, LIVE, st.status[arr])
@@ -773,10 +803,32 @@ class Exec:
         if t.startswith(('copy ', 'move ')):
             return s.load(st, fr, s.parse_place(t[5:]))
         if t.startswith('const '):
-            return s.const(t[6:])
+            v = s.const(t[6:])
+            if isinstance(v, Opaque):
+                mc = re.fullmatch(r'(?:\w+::)*(?:\w+::<[^()]*>::|<[^()]*>::)?([A-Z][A-Z0-9_]*)', v.tag)
+                items = CONST_ITEMS.get(mc.group(1)) if mc else None
+                if items and len(items) == 1:      # one of the crate's own constants (unambiguous by name): its value, not an opaque token
+                    return s.crate_const(st, items[0])
+            return v
         if re.fullmatch(r'<\w+ as [\w:]+>::\w+', t):      # a function item used as a value (e.g. <T as Clone>::clone)
             return Opaque(t)
         raise NotImplementedError('operand ' + t)
+
+    def crate_const(s, st, item):
+        """value of a constant item of the crate: a literal, or its MIR body run as a parameterless function (the paths are merged into one
+        if-then-else term over the branch conditions, e.g. `size_of::<T>() == size_of::<U>() && ..`)"""
+        if item[0] == 'lit':
+            return s.const(item[1])
+        base = len(st.pc)
+        val = None
+        for (s2, kind, v) in s.run_fn(st.clone(), item[1], []):
+            if kind != 'ret' or not z3.is_expr(v):
+                raise NotImplementedError('constant item %s does not evaluate to a scalar' % item[1].name)
+            extra = s2.pc[base:]
+            val = v if val is None else z3.If(z3.And(*extra) if extra else z3.BoolVal(True), v, val)
+        if val is None:
+            raise NotImplementedError('constant item %s has no evaluation path' % item[1].name)
+        return z3.simplify(val)
 
     def div(s, st, a, b, rem=False):
         """64-bit udiv/urem via fresh q, r and the division lemma (raw bvudiv on symbolic operands does not finish)"""
@@ -1616,8 +1668,13 @@ class Exec:
         cn = norm(callee)
         if re.search(r'from_raw_parts_mut::<', cn) and not re.search(r'slice_from_raw_parts_mut', cn) and isinstance(args[0], _Ptr):
             s.require(st, z3.BoolVal(args[0].prov != 'shared'), 'mutable slice created from a pointer that was derived through a shared borrow (writes through it are undefined behaviour)', where)
-        if (re.search(r'(^|::)write::<T>$', cn) or re.search(r'<impl \*mut (T|MaybeUninit<T>)>::write$', cn)) and args and isinstance(args[0], _Ptr):
+        if (re.search(r'(^|::)write::<[A-Z]\w*>$', cn) or re.search(r'<impl \*mut (T|MaybeUninit<T>)>::write$', cn)) and args and isinstance(args[0], _Ptr):
             s.require(st, z3.BoolVal(args[0].prov != 'shared'), 'write through a pointer that was derived through a shared borrow (undefined behaviour)', where)
+        mt = re.match(r'^(?:crate::)?const_transmute::<GenericArray<(\w+), N>, <<GenericArray<T, N> as (?:\w+::)*MappedGenericSequence<T, (\w+)>>::Mapped as (?:\w+::)*GenericSequence<(\w+)>>::Sequence>$', cn)
+        if mt and mt.group(1) == mt.group(2) == mt.group(3):
+            # source and target are the same type once the projection is normalised (`MappedSequence<GenericArray<T, N>, T, U>` IS `GenericArray<U, N>`)
+            s.summaries_used.add('const_transmute::<GenericArray<U, N>, MappedSequence<GenericArray<T, N>, T, U>> (identity: the two types are equal after normalisation)')
+            return [(st, 'ret', args[0])]
         # stubs that take precedence over the crate's own bodies (hex encoder contract, the 2N-byte scratch buffer)
         if re.match(r'^hex_encode(_fallback)?::<UPPER>$', cn):
             src, dst = args
@@ -1929,7 +1986,7 @@ class Exec:
                 sl = Slice(sl.arr, bv(0), sl.arr.len)
             s.require(st, ULT(i, sl.end - sl.start), 'get_unchecked(index) out of bounds', where)
             return R(ElemPtr(sl.arr, sl.start + i))
-        if re.match(r'(ptr::)?drop_in_place::<\[T\]>', c):
+        if re.match(r'(ptr::)?drop_in_place::<\[[A-Z]\w*\]>', c):
             return s.drop_slice(st, args[0], where)
         if re.match(r'(ptr::)?drop_in_place::<T>$', c) and isinstance(args[0], ElemPtr):
             return s.drop_slice(st, Slice(args[0].arr, args[0].idx, args[0].idx + 1), where)
@@ -1945,7 +2002,7 @@ class Exec:
                 return R(arr)                     # the same object, reinterpreted
             st.calls += 1                         # bitwise copy: a new object that owns nothing yet
             return R(Arr('Copy%d' % st.calls, arr.len))
-        if re.search(r'(^|::)read::<GenericArray<T, N>>$', c):
+        if re.search(r'(^|::)read::<GenericArray<[A-Z]\w*, N>>$', c):
             # bitwise move of a whole array out of a place that keeps its bits (ManuallyDrop / about to be forgotten): the result IS the same
             # object as far as ownership goes - if both the source's owner and the new owner drop it, the ledger reports the double drop
             a = args[0]
@@ -1959,11 +2016,20 @@ class Exec:
                 st.events.append('ptr::read of the whole array %s (moved into %s)' % (arr.name, new.name))
                 return R(new)
             raise NotImplementedError('block read ' + c)
+        mrd = re.search(r'(^|::)read::<(\w+)<', c)
+        if mrd and isinstance(args[0], Ref) and s.struct_fields(mrd.group(2)) is not None and mrd.group(2) not in ('GenericArray',):
+            # bitwise copy of one of the crate's (guard) structs out of a place that keeps its bits: the copy has the same fields (same
+            # references, same position); both copies may be used - the ledger reports it if both release what they guard
+            import copy as _copy
+            v = st.get(args[0].cell, args[0].path)
+            if isinstance(v, dict):
+                st.events.append('ptr::read of a %s (bitwise copy of the guard)' % mrd.group(2))
+                return R(_copy.copy(v))
         if re.search(r'(^|::)read::<GenericArray<', c):
             raise NotImplementedError('block read ' + c)
         if re.match(r'^MaybeUninit::<T>::assume_init_drop$', c) and isinstance(args[0], ElemPtr):
             return s.drop_slice(st, Slice(args[0].arr, args[0].idx, args[0].idx + 1), where)
-        if re.search(r'(^|::)write::<T>$', c):
+        if re.search(r'(^|::)write::<[A-Z]\w*>$', c) and isinstance(args[0], ElemPtr):      # ptr::write of one element (T, or the mapped type through a cast slot pointer)
             p, v = args
             s.ev_write(st, p.arr, p.idx, v, where)
             return R(UNIT)
@@ -2001,7 +2067,18 @@ class Exec:
             if isinstance(a, ArrRef):
                 a = Slice(a.arr, bv(0), a.arr.len)
             return R((a.end - a.start) * s.S)      # bytes = elements * size_of::<T>()
-        ms = re.search(r'size_of::<(A|B)>$', c)
+        ms = re.search(r'(?:^|::)(?:size|align)_of::<([A-SU-Z]\w*)>$', c)
+        if ms and 'align_of' in c:      # alignment of another type parameter: a symbolic non-zero value
+            key = 'align_of_' + ms.group(1)
+            if key not in s.consts:
+                s.consts[key] = mkint(key)
+            st.pc.append(s.consts[key] != bv(0))
+            return R(s.consts[key])
+        if re.search(r'(?:^|::)align_of::<T>$', c):
+            if 'align_of_T' not in s.consts:
+                s.consts['align_of_T'] = mkint('align_of_T')
+            st.pc.append(s.consts['align_of_T'] != bv(0))
+            return R(s.consts['align_of_T'])
         if ms:
             if 'size_of_' + ms.group(1) not in s.consts:
                 s.consts['size_of_' + ms.group(1)] = mkint('size_of_' + ms.group(1))
@@ -2504,19 +2581,64 @@ class Exec:
         raise NotImplementedError('no summary for callee: ' + c)
 
     # ---------------------------------------------------------------- type-directed drop
-    def drop_value(s, st, fr, local, ty, where):
+    def struct_fields(s, name):
+        """[(field, type)] of a struct defined in the crate's sources (declaration order = MIR field order), or None"""
+        if not hasattr(s, '_structs'):
+            s._structs = {}
+            for dp, dn, fnames in os.walk(os.path.join(s.srcroot, 'src')):
+                for f in fnames:
+                    if f.endswith('.rs'):
+                        text = re.sub(r'//[^\n]*', '', open(os.path.join(dp, f)).read())
+                        for m in re.finditer(r'\bstruct\s+(\w+)\s*(?:<[^{;(]*>)?\s*(?:where[^{;]*)?\{([^}]*)\}', text):
+                            fl = []
+                            for part in split_top(m.group(2)):
+                                mf = re.match(r'\s*(?:pub(?:\([^)]*\))?\s+)?(\w+)\s*:\s*(.+?)\s*$', part, re.S)
+                                if mf:
+                                    fl.append((mf.group(1), ' '.join(mf.group(2).split())))
+                            s._structs.setdefault(m.group(1), fl)
+        return s._structs.get(name)
+
+    def drop_value(s, st, fr, local, ty, where, at=None):
         """-> [(state, 'ret'|'unwind')]"""
-        if local not in fr:
+        if at is None:
+            if local not in fr:
+                return [(st, 'ret')]
+            cell, path = fr[local], ()
+        else:
+            cell, path = at
+        try:
+            v = st.get(cell, path)
+        except (KeyError, TypeError, IndexError, AttributeError):
             return [(st, 'ret')]
-        cell = fr[local]
-        v = st.heap[cell]
         head = norm(ty)
         m = re.match(r'(ArrayConsumer|IntrusiveArrayBuilder|ArrayBuilder|GenericArrayIter)<', head)
         if m:
             fn = s.pick(s.index[('Drop', m.group(1), 'drop')])
             outs = []
-            for (s1, k, _) in s.run_fn(st, fn, [Ref(cell, ())]):
+            for (s1, k, _) in s.run_fn(st, fn, [Ref(cell, path)]):
                 outs.append((s1, k))
+            return outs
+        if head.startswith('ManuallyDrop<') or head.startswith(('&', '*const ', '*mut ', 'PhantomData<')):
+            return [(st, 'ret')]
+        mname = re.match(r'(\w+)(?:<|$)', head)
+        if mname and isinstance(v, dict) and '__closure__' not in v and (('Drop', mname.group(1), 'drop') in s.index or s.struct_fields(mname.group(1)) is not None) \
+                and mname.group(1) not in ('GenericArray', 'GenericArrayImplEven', 'GenericArrayImplOdd', 'Vec', 'Box'):
+            # any other struct of the crate: its own Drop impl (if it has one) runs first, then the drop glue of its fields in declaration order;
+            # a second panic while unwinding aborts (that path ends)
+            outs = [(st, 'ret')]
+            if ('Drop', mname.group(1), 'drop') in s.index:
+                outs = [(s1, k) for (s1, k, _) in s.run_fn(st, s.pick(s.index[('Drop', mname.group(1), 'drop')]), [Ref(cell, path)])]
+            fields = s.struct_fields(mname.group(1))
+            if fields is None:
+                raise NotImplementedError('drop glue of %s: struct definition not found in the sources' % mname.group(1))
+            for i, (fname, fty) in enumerate(fields):
+                nxt = []
+                for (s2, k2) in outs:
+                    for (s3, k3) in s.drop_value(s2, fr, None, fty, where, at=(cell, tuple(path) + (i,))):
+                        if k2 == 'unwind' and k3 == 'unwind':
+                            continue
+                        nxt.append((s3, 'unwind' if 'unwind' in (k2, k3) else 'ret'))
+                outs = nxt
             return outs
         if head.startswith('GenericArray<MaybeUninit<') or head.startswith('MaybeUninit<'):
             return [(st, 'ret')]
